@@ -1,15 +1,16 @@
 (* Correspondence and oracle for C17 (transport layer: cache, delta, range, geometry). *)
-From HL Require Export Lib.Bytes Lib.Judge Model.Semantic.
+From HL Require Export Lib.Bytes Lib.Judge Model.Semantic Model.SemTokens.
 Open Scope N_scope.
 
 (* per content: the data of a full answer on a fresh server, the UTF-16 length of every line,
    whether the text is empty, and content flags used by the known-finding classifiers *)
 (* ci_cover: per token of the full answer (type, the bytes it covers, the bytes of the line behind it) *)
+(* ci_text: the bytes of the content (the tokenizer model runs on them) *)
 Record cinfo := mkInfo { ci_data : list N; ci_lens : list N; ci_empty : bool; ci_flags : N;
-                         ci_cover : list (N * list N * list N) }.
+                         ci_cover : list (N * list N * list N); ci_text : list N }.
 Record case := mkCase { table : list cinfo; hist : list (sreq * sresp) }.
 
-Definition info (c : case) (k : N) : cinfo := nth (N.to_nat k) (table c) (mkInfo [] [] true 0 []).
+Definition info (c : case) (k : N) : cinfo := nth (N.to_nat k) (table c) (mkInfo [] [] true 0 [] []).
 Definition toks_of (c : case) (k : N) : list tok := decode (ci_data (info c k)).
 Definition empty_of (c : case) (k : N) : bool := ci_empty (info c k).
 
@@ -30,7 +31,15 @@ Fixpoint tie_from (c : case) (s : sstate) (h : list (sreq * sresp)) : bool :=
       let '(s', m) := sstep (toks_of c) (empty_of c) s r in
       resp_eqb m o && tie_from c s' rest
   end.
-Definition tie_ok (c : case) : bool := tie_from c sinit (hist c).
+(* the tokenizer: the transcribed tokenizeForSemantics, run on the content's bytes through the lexer
+   model, gives the data of the implementation's full answer *)
+Definition tokenizer_tie (i : cinfo) : bool :=
+  ci_empty i || list_eqb N.eqb (encode (sem_tokens (ci_text i))) (ci_data i).
+
+Definition tie_ok (c : case) : bool :=
+  tie_from c sinit (hist c) &&
+  forallb (fun k => tokenizer_tie (info c k))
+          (flat_map (fun ro => match fst ro with SOpen _ k | SEdit _ k => [k] | _ => [] end) (hist c)).
 
 (* ---- oracle on the implementation's answers ---- *)
 (* (a) delta clause: the client's reconstruction equals the full data of the current text
